@@ -20,6 +20,16 @@ fn main() {
         "probe" => {
             std::process::exit(props::probe(&args[2..]));
         }
+        "fuzz-artifact" => {
+            // hv fuzz-artifact <prop> <target> <file>: convert a libFuzzer artifact into a replay file and re-check it
+            if args.len() < 5 {
+                usage();
+            }
+            std::process::exit(props::fuzz_artifact(&args[2], &args[3], &args[4]));
+        }
+        "gen-corpus" => {
+            std::process::exit(props::gen_corpus(args.get(2).map(|s| s.as_str()).unwrap_or("/verif/corpus")));
+        }
         "list" => {
             for p in props::ALL {
                 println!("{p}");
